@@ -184,10 +184,18 @@ class CWorld:
             self.open_listeners()
         if self.sq is not None:
             self.sq.cleanup()
-        self.sq = ls.Squid(self.ctx, self.name, self.pb, conf=conf_text(rules, self.p1, self.p2), default_acl=False)
-        os.makedirs(self.sq.dir, exist_ok=True)
-        self.sq.set_hosts(HOSTIP)
-        self.sq.start()
+        for attempt in range(3):
+            self.sq = ls.Squid(self.ctx, self.name, self.pb, conf=conf_text(rules, self.p1, self.p2), default_acl=False)
+            os.makedirs(self.sq.dir, exist_ok=True)
+            self.sq.set_hosts(HOSTIP)
+            try:
+                self.sq.start()
+                break
+            except HarnessError as e:
+                # on an overloaded machine the (real-time) 60 s start-up allowance of the engine can expire
+                self.sq.cleanup()
+                if attempt == 2 or 'not ready after' not in str(e):
+                    raise
         self.starts += 1
         self.rules = rules
         self.logpos = 0
